@@ -52,6 +52,8 @@ type Event struct {
 	Fn    *ssa.Function
 	frame *frame
 	env   *env
+	tbl   *[]Event // the finished path this event belongs to (set when the path is recorded)
+	idx   int      // index of the event in that path
 }
 
 // Path is one entry-to-return path.
@@ -107,10 +109,40 @@ func Enumerate(fn *ssa.Function, cfg Config) ([]*Path, error) {
 func (w *Walker) Events() []Event { return w.events }
 
 // Resolve maps a value through phis, inlined parameters and inlined call results as of now.
-func (w *Walker) Resolve(v ssa.Value) ssa.Value { return resolveIn(w.curF, w.curE, v) }
+func (w *Walker) Resolve(v ssa.Value) ssa.Value {
+	// a value of another function on the path (an inlined callee that has returned) is resolved in that function's frame
+	if v != nil && w.curF != nil && v.Parent() != nil && v.Parent() != w.curF.fn {
+		for i := len(w.events) - 1; i >= 0; i-- {
+			o := w.events[i]
+			if o.Kind == EvEnter || o.Kind == EvLeave || o.frame == nil {
+				continue
+			}
+			if o.frame.fn == v.Parent() {
+				return resolveIn(o.frame, o.env, v)
+			}
+		}
+	}
+	return resolveIn(w.curF, w.curE, v)
+}
 
 // Resolve resolves a value as of the moment the event was recorded.
-func (e Event) Resolve(v ssa.Value) ssa.Value { return resolveIn(e.frame, e.env, v) }
+func (e Event) Resolve(v ssa.Value) ssa.Value {
+	// a value that belongs to another function on the path (an inlined callee that has returned, or the caller) is resolved
+	// in the frame of the most recent event of that function at or before this one
+	if v != nil && e.tbl != nil && e.frame != nil && v.Parent() != nil && v.Parent() != e.frame.fn {
+		evs := *e.tbl
+		for i := e.idx; i >= 0 && i < len(evs); i-- {
+			o := evs[i]
+			if o.Kind == EvEnter || o.Kind == EvLeave || o.frame == nil {
+				continue
+			}
+			if o.frame.fn == v.Parent() {
+				return resolveIn(o.frame, o.env, v)
+			}
+		}
+	}
+	return resolveIn(e.frame, e.env, v)
+}
 
 func lookupPhi(e *env, p *ssa.Phi) (ssa.Value, bool) {
 	for ; e != nil; e = e.next {
@@ -166,6 +198,17 @@ func resolveIn(f *frame, e *env, v ssa.Value) ssa.Value {
 
 func (w *Walker) emit(e Event) { w.events = append(w.events, e) }
 
+// record copies the current events into a finished path; every copied event learns its path and position.
+func (w *Walker) record(p *Path) {
+	evs := append([]Event{}, w.events...)
+	for i := range evs {
+		evs[i].tbl = &evs
+		evs[i].idx = i
+	}
+	p.Events = evs
+	w.out = append(w.out, p)
+}
+
 type cont func(results []ssa.Value) error
 
 // block walks basic block b of frame f entered from pred with bindings e; k continues the caller when f returns.
@@ -175,7 +218,7 @@ func (w *Walker) block(f *frame, e *env, b *ssa.BasicBlock, pred *ssa.BasicBlock
 	}
 	key := visitKey{f, b}
 	if w.onPath[key] > 0 {
-		w.out = append(w.out, &Path{Events: append([]Event{}, w.events...), Aborted: fmt.Sprintf("loop through block %d of %s", b.Index, f.fn.Name())})
+		w.record(&Path{Aborted: fmt.Sprintf("loop through block %d of %s", b.Index, f.fn.Name())})
 		return nil
 	}
 	w.onPath[key]++
@@ -253,13 +296,13 @@ func (w *Walker) instrs(f *frame, e *env, b *ssa.BasicBlock, from int, k cont) e
 			}
 			if f.parent == nil {
 				w.emit(Event{Kind: EvReturn, Instr: ins, Depth: depth, Fn: f.fn, frame: f, env: e})
-				w.out = append(w.out, &Path{Events: append([]Event{}, w.events...), Results: res})
+				w.record(&Path{Results: res})
 				return nil
 			}
 			return k(res)
 		case *ssa.Panic:
 			w.emit(Event{Kind: EvInstr, Instr: ins, Depth: depth, Fn: f.fn, frame: f, env: e})
-			w.out = append(w.out, &Path{Events: append([]Event{}, w.events...), Aborted: "panic"})
+			w.record(&Path{Aborted: "panic"})
 			return nil
 		case *ssa.Call:
 			callee := x.Call.StaticCallee()
